@@ -2567,9 +2567,13 @@ def _average(
             wgt = broadcast_to(wgt, (a.ndim - 1) * (1,) + wgt.shape)
             wgt = wgt.swapaxes(-1, axis)
         if is_masked:
-            from dask.array.ma import getmaskarray
+            from dask.array.ma import getmaskarray, masked_array
 
-            wgt = wgt * (~getmaskarray(a))
+            # as in numpy.ma.average: the weights of masked elements are
+            # masked themselves, so an all-masked selection has a masked
+            # sum of weights (and a masked average)
+            mask = getmaskarray(a)
+            wgt = masked_array(wgt * (~mask), mask=mask)
         scl = wgt.sum(axis=axis, dtype=result_dtype, keepdims=keepdims)
         avg = multiply(a, wgt, dtype=result_dtype).sum(axis, keepdims=keepdims) / scl
 
